@@ -29,11 +29,19 @@
     jointly satisfiable: OrbProofs/C15Real.lean proves every one of them for Mathlib's real functions
     and derives the unconditional round trips over ℝ.
 
+  * ABSOLUTE position (`toWGS84_absolute_two_pow`, `toWGS84_absolute_other`, `tile_corner_*`): the WGS84
+    image of pixel (p, q) of tile (X, Y, Z) is `ToGeo` at the tile's own zoom of the world coordinate
+    `tile + (pixel + ½)/extent`; pixel −½ and pixel extent−½ are the tile's north-west and south-east
+    corners `ToGeo(X, Y, Z)`, `ToGeo(X+1, Y+1, Z)` (what `maptile.Tile.Bound()` computes).  A round trip
+    is blind to an origin that both directions get wrong in the same way; these statements are not
+    (the driver's clauses `tile-wgs84-absolute` / `tile-corner-bound` are their executable form).
+
   NOT proved: the numeric bounds 1e-9° / 1 mm and the exact integer recovery under float64 `exp/atan/
   log/sin` are float-accuracy statements (`…_full` below); the correspondence check measures them.
 -/
 import OrbProofs.C15Lemmas
 import OrbProofs.C15ProjLemmas
+import OrbProofs.C15AbsLemmas
 
 namespace Orb.Project
 open Orb Orb.Core
@@ -293,6 +301,47 @@ theorem layers_roundtrip (F : MFn α)
     (hpix : ∀ l ∈ ls, ∀ g, GVal.val g ∈ l.2 → PixelsOK F X Y Z l.1 g) :
     layersProjectToTile F X Y Z (layersProjectToWGS84 F X Y Z ls) = ls :=
   layers_roundtrip' F hfloor hofNat X Y Z ls hpix
+
+/-! #### absolute position of a tile's pixels -/
+
+/-- Extent `2^k` (k < 32, a valid tile, level below 64): the WGS84 image of ANY pixel coordinate
+    `(p, q)` of the field is `ToGeo` at the tile's own zoom `Z` of `tile + (pixel + ½)/2^k`. -/
+theorem toWGS84_absolute_two_pow (F : MFn α) (hofNat : ∀ n : Nat, F.ofNat n = (n : α))
+    (X Y Z k : Nat) (hk : k < 32) (hX : X < 2 ^ 32) (hY : Y < 2 ^ 32) (hlev : Z + k < 64) (p q : α) :
+    (newProjection F X Y Z (2 ^ k)).toWGS84 ⟨p, q⟩ =
+      toGeo F Z ⟨(X : α) + (p + 1 / 2) / 2 ^ k, (Y : α) + (q + 1 / 2) / 2 ^ k⟩ :=
+  toWGS84_absolute_two_pow' F hofNat X Y Z k hk hX hY hlev p q
+
+/-- The same for every extent that is not a power of two. -/
+theorem toWGS84_absolute_other (F : MFn α) (hofNat : ∀ n : Nat, F.ofNat n = (n : α))
+    (X Y Z e : Nat) (h : isPowerOfTwo e = false) (p q : α) :
+    (newProjection F X Y Z e).toWGS84 ⟨p, q⟩ =
+      toGeo F Z ⟨(X : α) + (p + 1 / 2) / (e : α), (Y : α) + (q + 1 / 2) / (e : α)⟩ :=
+  toWGS84_absolute_other' F hofNat X Y Z e h p q
+
+/-- Pixel −½ is the north-west corner `ToGeo(X, Y, Z)` of the tile … -/
+theorem tile_corner_nw_two_pow (F : MFn α) (hofNat : ∀ n : Nat, F.ofNat n = (n : α))
+    (X Y Z k : Nat) (hk : k < 32) (hX : X < 2 ^ 32) (hY : Y < 2 ^ 32) (hlev : Z + k < 64) :
+    (newProjection F X Y Z (2 ^ k)).toWGS84 ⟨-(1 / 2), -(1 / 2)⟩ = toGeo F Z ⟨(X : α), (Y : α)⟩ :=
+  tile_corner_nw_two_pow' F hofNat X Y Z k hk hX hY hlev
+
+theorem tile_corner_nw_other (F : MFn α) (hofNat : ∀ n : Nat, F.ofNat n = (n : α))
+    (X Y Z e : Nat) (h : isPowerOfTwo e = false) :
+    (newProjection F X Y Z e).toWGS84 ⟨-(1 / 2), -(1 / 2)⟩ = toGeo F Z ⟨(X : α), (Y : α)⟩ :=
+  tile_corner_nw_other' F hofNat X Y Z e h
+
+/-- … and pixel extent−½ the south-east corner `ToGeo(X+1, Y+1, Z)`. -/
+theorem tile_corner_se_two_pow (F : MFn α) (hofNat : ∀ n : Nat, F.ofNat n = (n : α))
+    (X Y Z k : Nat) (hk : k < 32) (hX : X < 2 ^ 32) (hY : Y < 2 ^ 32) (hlev : Z + k < 64) :
+    (newProjection F X Y Z (2 ^ k)).toWGS84 ⟨2 ^ k - 1 / 2, 2 ^ k - 1 / 2⟩ =
+      toGeo F Z ⟨(X : α) + 1, (Y : α) + 1⟩ :=
+  tile_corner_se_two_pow' F hofNat X Y Z k hk hX hY hlev
+
+theorem tile_corner_se_other (F : MFn α) (hofNat : ∀ n : Nat, F.ofNat n = (n : α))
+    (X Y Z e : Nat) (h : isPowerOfTwo e = false) :
+    (newProjection F X Y Z e).toWGS84 ⟨(e : α) - 1 / 2, (e : α) - 1 / 2⟩ =
+      toGeo F Z ⟨(X : α) + 1, (Y : α) + 1⟩ :=
+  tile_corner_se_other' F hofNat X Y Z e h
 
 end tile
 
